@@ -182,7 +182,7 @@ def check_crash(ctx, cases, stats):
         if c.get("killed"):
             stats["kills"] += 1
             stats["by_how"][c["how"]] = stats["by_how"].get(c["how"], 0) + 1
-            if c.get("boundary"):
+            if c.get("boundary") and c["how"] == "sys":
                 stats["boundaries"][c["boundary"]] = stats["boundaries"].get(c["boundary"], 0) + 1
             post = c["post"].get("latest")
             key = "err" if c["post"].get("latest_err") else (post["text"] if post else "none")
@@ -254,7 +254,7 @@ def run(ctx):
                        "scenario DAG killed at one point; distinct by (scenario, system-call boundary hit | time offset)")
     ctx.cov["inproc"] = {"cases": len(cases), "corpus_cases": stats.get("corpus_cases", 0), "kinds": kinds, "persisted_lines": stats["lines"], "live_answers": stats["live_answers"],
                          "synthesized_kill_prefixes": stats["prefix_states"], "seconds": round(t1 - t0, 1),
-                         "observed_not_judged": {"status queries failing while Close compacts the history (original unlinked under the reader)": stats.get("read_errors_during_compaction", 0)}}
+                         "observed_not_judged": {"status queries answered with an error or the default status while Close compacts the history (original unlinked under the reader)": stats.get("read_errors_during_compaction", 0)}}
     ctx.cov["crash"] = {"runs": len(crash), "killed": stats["kills"], "ended_before_the_kill": stats["not_killed"], "by_how": stats["by_how"],
                         "boundaries_hit": stats["boundaries"], "reported_after_kill": stats["reported_after_kill"],
                         "shutdown_boundaries": info.pop("shutdown_boundaries", None),
@@ -263,7 +263,7 @@ def run(ctx):
     ctx.cov["monitor_classes"] = stats["monitor_classes"]
     ctx.cov["exhaustive"] = False
     ctx.cov["trusted_base"] += [
-        "model: the step scheduler is abstract (any node may move at any time); sc.lastError is taken as written atomically with the node status (DESIGN.md section 7); a status line reaches the file atomically (torn lines are C07's); log-file teardown does not fail",
+        "model (follows /repo after b9e9fa2 and 3aa388e): the step scheduler is abstract (any node may move at any time); sc.lastError is taken as written atomically with the node status (DESIGN.md section 7); a status line reaches the file atomically (torn lines are C07's); log-file teardown does not fail; the history holds this run only",
         "socket liveness is runtime behaviour: the model takes it as the boolean `alive` (bound socket of a live process answers, a dead one does not); checked on the real binary after every kill",
         "kill = SIGKILL of the run's process (kernel buffers survive); strace injection kills on entering the k-th call of one system-call name, counted per thread",
     ]
